@@ -2,34 +2,36 @@
    Only statements here; proofs live in Proofs/NodeProtoP.v.  The model (Model/NodeProto.v) is the
    code after fixes/C19_1..6; json.dumps / json.loads are oracles whose laws appear as premises. *)
 From Coq Require Import List NArith ZArith Bool.
-From Circ Require Import Model.NodeProto Proofs.NodeProtoP.
+From Circ Require Import Model.NodeProto Proofs.NodeProtoP Proofs.NodeEndToEndP.
 Import ListNotations.
 
 (* ---- framing: every cut of the stream of packets into reads yields exactly the packets sent, in
    order, each once, nothing held back.  Premises = what is needed from the serialiser:
    loads (text p) = p; the text contains no delimiter byte (dump_* escape '~', see C19_escape);
    no proper prefix of a text parses; a text followed by part of the delimiter does not parse;
-   a proper prefix of the delimiter does not parse. *)
+   a proper prefix of the delimiter does not parse.  [ok] = the packets honest peers send (JSON
+   objects: for a top-level number a proper prefix does parse). *)
 Theorem C19_framing :
-  forall (P : Type) (parse : list N -> option P) (enc : P -> list N) (d0 : N) (dr : list N),
-  (forall p, parse (enc p) = Some p) ->
-  (forall p, ~ In d0 (enc p)) ->
-  (forall p q r, enc p = q ++ r -> r <> [] -> parse q = None) ->
-  (forall p t t', d0 :: dr = t ++ t' -> t <> [] -> t' <> [] -> parse (enc p ++ t) = None) ->
+  forall (P : Type) (parse : list N -> option P) (enc : P -> list N) (d0 : N) (dr : list N) (ok : P -> Prop),
+  (forall p, ok p -> parse (enc p) = Some p) ->
+  (forall p, ok p -> ~ In d0 (enc p)) ->
+  (forall p q r, ok p -> enc p = q ++ r -> r <> [] -> parse q = None) ->
+  (forall p t t', ok p -> d0 :: dr = t ++ t' -> t <> [] -> t' <> [] -> parse (enc p ++ t) = None) ->
   (forall t t', d0 :: dr = t ++ t' -> t' <> [] -> parse t = None) ->
-  forall (ps : list P) (chunks : list (list N)),
+  forall (ps : list P) (chunks : list (list N)), Forall ok ps ->
     concat chunks = frames P (d0 :: dr) enc ps -> run P parse (d0 :: dr) [] chunks = (ps, []).
 Proof. exact framing. Qed.
 Print Assumptions C19_framing.
 
 Theorem C19_framing_cut_independent :
-  forall (P : Type) (parse : list N -> option P) (enc : P -> list N) (d0 : N) (dr : list N),
-  (forall p, parse (enc p) = Some p) ->
-  (forall p, ~ In d0 (enc p)) ->
-  (forall p q r, enc p = q ++ r -> r <> [] -> parse q = None) ->
-  (forall p t t', d0 :: dr = t ++ t' -> t <> [] -> t' <> [] -> parse (enc p ++ t) = None) ->
+  forall (P : Type) (parse : list N -> option P) (enc : P -> list N) (d0 : N) (dr : list N) (ok : P -> Prop),
+  (forall p, ok p -> parse (enc p) = Some p) ->
+  (forall p, ok p -> ~ In d0 (enc p)) ->
+  (forall p q r, ok p -> enc p = q ++ r -> r <> [] -> parse q = None) ->
+  (forall p t t', ok p -> d0 :: dr = t ++ t' -> t <> [] -> t' <> [] -> parse (enc p ++ t) = None) ->
   (forall t t', d0 :: dr = t ++ t' -> t' <> [] -> parse t = None) ->
-  forall ps cs1 cs2, concat cs1 = frames P (d0 :: dr) enc ps -> concat cs2 = frames P (d0 :: dr) enc ps ->
+  forall ps cs1 cs2, Forall ok ps ->
+    concat cs1 = frames P (d0 :: dr) enc ps -> concat cs2 = frames P (d0 :: dr) enc ps ->
     run P parse (d0 :: dr) [] cs1 = run P parse (d0 :: dr) [] cs2.
 Proof. exact framing_cut_independent. Qed.
 Print Assumptions C19_framing_cut_independent.
@@ -178,6 +180,67 @@ Example C19_roundtrip_ex : forall cut, In cut [0; 1; 2; 3]%nat ->
   /\ map c_fin (a_calls (Ex.final (fun _ => Some (Some Ex.result)) cut)) = [true]
   /\ length (b_log (Ex.final (fun _ => Some (Some Ex.result)) cut)) = 1%nat.
 Proof. exact Ex.roundtrip. Qed.
+
+(* ---- END TO END.  The two-party system [exec] (caller protocol, callee protocol, the two byte channels with
+   what has been written and not yet read, the callee's handler) under ANY honest schedule: sends in any
+   mode (MCall / node_without_result set / Server.send(no_result=True), send_to, send_all) interleaved in
+   any way with reads of ANY size on either channel (OAB n / OBA n / one packet).  Premise: the json laws
+   (record json_laws: dumps total with text [ser j]; for JSON objects loads(escape(ser j)) = j, no proper
+   prefix parses, text + partial delimiter does not parse; a partial delimiter does not parse) - the same
+   laws as the premises of C19_framing.  If at the end both channels are empty (everything written was
+   delivered), then
+   - the callee dispatched, in order, exactly [logof e] for every send e that passed the send firewall:
+     [ev2 e] (the event that was sent; success set, default channel filled in) exactly once if it passes
+     the receive firewall and has a handler, nothing otherwise - whatever the mode (fire-and-forget
+     sends run once), and nothing for sends rejected by the send firewall (they produced no bytes);
+   - the caller's entry of every send is exactly [exp1]: for an accepted call whose handler returns r:
+     finished with value r (that event's result and nothing else); handler raises: never resumed
+     (open finding C19-remote-error-lost); rejected by the receive firewall / no handler: finished with
+     null; sends without result: never resumed; rejected by the send firewall: the rejection marker;
+   - both protocol buffers are empty and the model never left its domain. *)
+Theorem C19_end_to_end :
+  forall excl dumps loads fw_send fw_recv handler b_chan ser, json_laws dumps loads ser ->
+  forall ops, Forall honest_op ops ->
+  let s := exec excl dumps loads DELIM fw_send fw_recv handler b_chan ops in
+  wab s = [] -> wba s = [] ->
+  b_log s = flat_map (logof excl fw_recv handler b_chan) (filter fw_send (map fst (sends_of ops)))
+  /\ a_calls s = map (exp1 excl fw_send fw_recv handler b_chan) (sends_of ops)
+  /\ a_buf s = [] /\ b_buf s = [] /\ bad s = false.
+Proof. exact end_to_end. Qed.
+Print Assumptions C19_end_to_end.
+
+(* an honest schedule that ends with empty channels (toy oracles; the json laws themselves are not
+   instantiated in Coq - see notes: the same-shaped premises of C19_framing are, by the Toy codec) *)
+Example C19_e2e_schedule_ex :
+  Forall honest_op [OSend Ex.e0 MCall; OAB 2; OAB 0; OBA 2; OBA 0]
+  /\ wab (Ex.final (fun _ => Some (Some Ex.result)) 2) = []
+  /\ wba (Ex.final (fun _ => Some (Some Ex.result)) 2) = [].
+Proof. exact e2e_schedule_ex. Qed.
+
+(* how to read exp1 / logof *)
+Theorem C19_e2e_call : forall excl fw_send fw_recv handler b_chan e r,
+  fw_send e = true -> outcome excl fw_recv handler b_chan e = Some r ->
+  exp1 excl fw_send fw_recv handler b_chan (e, MCall) = final excl e r
+  /\ c_fin (final excl e r) = true /\ c_val (final excl e r) = r.
+Proof. exact exp1_call. Qed.
+Print Assumptions C19_e2e_call.
+Theorem C19_e2e_noresult : forall excl fw_send fw_recv handler b_chan e m,
+  fw_send e = true -> m <> MCall -> exp1 excl fw_send fw_recv handler b_chan (e, m) = call0.
+Proof. exact exp1_nores. Qed.
+Print Assumptions C19_e2e_noresult.
+Theorem C19_e2e_rejected : forall excl fw_send fw_recv handler b_chan e m,
+  fw_send e = false -> exp1 excl fw_send fw_recv handler b_chan (e, m) = rej_call m.
+Proof. exact exp1_rej. Qed.
+Print Assumptions C19_e2e_rejected.
+Theorem C19_e2e_dispatched : forall excl fw_recv handler b_chan e r,
+  fw_recv (ev1 excl e) = true -> handler (ev2 excl b_chan e) = Some r ->
+  logof excl fw_recv handler b_chan e = [ev2 excl b_chan e].
+Proof. exact logof_run. Qed.
+Print Assumptions C19_e2e_dispatched.
+Theorem C19_e2e_blocked : forall excl fw_recv handler b_chan e, fw_recv (ev1 excl e) = false ->
+  logof excl fw_recv handler b_chan e = [] /\ outcome excl fw_recv handler b_chan e = Some JNull.
+Proof. exact logof_blocked. Qed.
+Print Assumptions C19_e2e_blocked.
 
 (* ---- open finding C19-remote-error-lost.  Full statement (does NOT hold):
      "whenever the call is dispatched on the peer, the sender's call finishes (result or error flag)".
